@@ -281,8 +281,8 @@ pub fn c18_worker(ctx: &mut Ctx) {
         Tier::Thorough => 3_000_000,
     };
     let n_comb: Vec<usize> = match ctx.tier {
-        Tier::Quick => vec![75_000],
-        Tier::Thorough => vec![75_000, 250_000],
+        Tier::Quick => vec![150_000],
+        Tier::Thorough => vec![150_000, 250_000],
     };
     let exe = std::env::current_exe().unwrap();
     let mut jobs: Vec<(String, usize, usize)> = Vec::new();
